@@ -50,6 +50,13 @@ class FnTranslator:
                 if isinstance(e.ops[0], ast.Eq): return '(String.eqb %s %s)' % (a, b)
                 if isinstance(e.ops[0], ast.NotEq): return '(negb (String.eqb %s %s))' % (a, b)
                 err(e, 'unsupported string comparison')
+            if isinstance(e.ops[0], (ast.In, ast.NotIn)):
+                # x in (c1, c2, ...) over constants: a disjunction of equalities
+                if not isinstance(r, (ast.Tuple, ast.List)) or not r.elts: err(e, 'membership in something other than a literal tuple/list')
+                strs = any(isinstance(x, ast.Constant) and isinstance(x.value, str) for x in r.elts) or (isinstance(l, ast.Name) and l.id in self.str_params)
+                eqs = ['(String.eqb %s %s)' % (a, self.expr(x)) if strs else '(%s =? %s)' % (a, self.expr(x)) for x in r.elts]
+                disj = '(' + ' || '.join(eqs) + ')'
+                return disj if isinstance(e.ops[0], ast.In) else '(negb %s)' % disj
             ops = {ast.Lt: '<?', ast.LtE: '<=?', ast.Eq: '=?', ast.Gt: '>?', ast.GtE: '>=?'}
             if isinstance(e.ops[0], ast.NotEq): return '(negb (%s =? %s))' % (a, b)
             if type(e.ops[0]) not in ops: err(e, 'unsupported comparison')
@@ -59,6 +66,12 @@ class FnTranslator:
             return '(' + (' %s ' % op).join(self.expr(v) for v in e.values) + ')'
         if isinstance(e, ast.Tuple):
             return '(' + ', '.join(self.expr(v) for v in e.elts) + ')'
+        if isinstance(e, ast.IfExp):
+            return '(if %s then %s else %s)' % (self.expr(e.test), self.expr(e.body), self.expr(e.orelse))
+        if isinstance(e, ast.Call) and isinstance(e.func, ast.Name) and e.func.id in ('min', 'max') and len(e.args) == 2 and not e.keywords:
+            return '(Z.%s %s %s)' % (e.func.id, self.expr(e.args[0]), self.expr(e.args[1]))
+        if isinstance(e, ast.Call) and isinstance(e.func, ast.Name) and e.func.id == 'abs' and len(e.args) == 1 and not e.keywords:
+            return '(Z.abs %s)' % self.expr(e.args[0])
         if isinstance(e, ast.Call):
             if isinstance(e.func, ast.Name) and e.func.id in self.known and not e.keywords:
                 return '(%s %s)' % (e.func.id, ' '.join(self.expr(a) for a in e.args))
@@ -111,7 +124,7 @@ class FnTranslator:
                 names = [t.id]; pat = t.id
             return 'let %s := %s in\n  %s' % (pat, self.expr(st.value), self.block(rest, defined | set(names), tail))
         if isinstance(st, ast.AugAssign):
-            ops = {ast.Add: '+', ast.Sub: '-', ast.Mult: '*'}
+            ops = {ast.Add: '+', ast.Sub: '-', ast.Mult: '*', ast.Mod: 'mod', ast.FloorDiv: '/'}
             if type(st.op) not in ops: err(st, 'unsupported augmented operator')
             if st.target.id not in defined: err(st, 'augmented assignment to an undefined name')
             return 'let %s := (%s %s %s) in\n  %s' % (st.target.id, st.target.id, ops[type(st.op)], self.expr(st.value),
